@@ -21,6 +21,7 @@ LEAN_MODULES = ["NpsVerif.Props.C08A", "NpsVerif.Props.C08B", "NpsVerif.Props.C0
 KERNELS = ()
 RULE = ("cases = function (concatenate axis 0 / -1, zeros/ones/empty_like, nonzero, where, subset, mask indexing, ragged_slice on "
         "ragged / 1-D / 2-D input, as_padded_matrix left/right) x operand shapes (exhaustive <=3x3 + random) x masks / windows x dtype; "
+        "plus mask objects with an in-place history (selected once, changed by &= / |= / ^= / logical_not(out=) / assignment, selecting again), np.where(mask, x, 0) with non-finite cells under a false mask, and every ragged_slice call made twice with the same bound arrays (which must stay unchanged); "
         "distinct = distinct (function, shapes, mask/window); non-trivial = at least one cell")
 EXHAUSTIVE = {"quick": False, "thorough": False}
 CORRESPONDENCE_ONLY = ["empty_like (shape only)", "dtype tags"]
